@@ -3,7 +3,7 @@ From Coq Require Import NArith List Bool.
 From Verif Require Import Sx Str Tok.
 From Verif.Gen Require Import IHateXml.
 From Verif.Model Require Import C20.
-From Verif.Proofs Require Import C20.
+From Verif.Proofs Require Import C20 C20f.
 Import ListNotations.
 Local Open Scope N_scope.
 
@@ -39,6 +39,29 @@ Theorem c20_toxml_injective : forall n1 n2 r, bmp n1 -> bmp n2 -> nopat n1 = tru
   toXmlName n1 = Some r -> toXmlName n2 = Some r -> n1 = n2.
 Proof. exact toxml_injective. Qed.
 
+(* the decoder's input side: on an encoded name, replacementRegexp.findall returns exactly the escapes the encoder
+   wrote, in order -- nothing of the original name is mistaken for an escape -- and unescapeChar maps each of them
+   back to the escaped character.  (What remains unproved for fromXmlName is only that the str.replace calls, in
+   any set order, touch exactly these occurrences.) *)
+Theorem c20_findall_is_the_escapes : forall n r, bmp n -> nopat n = true -> toXmlName n = Some r ->
+  findall r = match n with
+              | [] => []
+              | c :: n' => (if bad_first c then [esc c] else []) ++ map esc (filter bad_rest n')
+              end.
+Proof. exact findall_toxml. Qed.
+Theorem c20_findall_items_decode : forall n r, bmp n -> nopat n = true -> toXmlName n = Some r ->
+  Forall (fun item => exists c, c < 65536 /\ item = esc c /\ unesc5 (tl item) = c) (findall r).
+Proof. exact findall_items_decode. Qed.
+
+(* coerceCharacters: with the flag replaceFormFeedCharacters no form feed remains
+   and only form feeds change (to a space); without the flag the data is unchanged *)
+Theorem c20_characters_coerced : forall s,
+  forallb (fun c => negb (c =? 12)) (coerceCharacters true s) = true /\
+  length (coerceCharacters true s) = length s /\
+  (forall i, nth i (coerceCharacters true s) 0 = if nth i s 0 =? 12 then 32 else nth i s 0) /\
+  coerceCharacters false s = s.
+Proof. exact characters_coerced. Qed.
+
 (* comments: the replace loop terminates for every input (at most two passes remove every "--"),
    and with the flags the result has no "--" and does not end in "-" *)
 Theorem c20_comment_coerced : forall e s,
@@ -62,5 +85,8 @@ Example c20_example :
     Some [120;108;105;110;107;85;48;48;48;51;65;104;114;101;102] /\
   fromXmlName_lr [120;108;105;110;107;85;48;48;48;51;65;104;114;101;102] = [120;108;105;110;107;58;104;114;101;102] /\
   nopat [120;108;105;110;107;58;104;114;101;102] = true /\
-  toXmlName [48; 97; 32; 98] = Some [85;48;48;48;51;48;97;85;48;48;48;50;48;98].
+  toXmlName [48; 97; 32; 98] = Some [85;48;48;48;51;48;97;85;48;48;48;50;48;98] /\
+  findall [85;48;48;48;51;48;97;85;48;48;48;50;48;98] = [[85;48;48;48;51;48]; [85;48;48;48;50;48]] /\
+  nopat [48; 97; 32; 98] = true /\
+  coerceCharacters true [97; 12; 98] = [97; 32; 98].
 Proof. repeat split; vm_compute; reflexivity. Qed.
